@@ -531,6 +531,57 @@ def binding_selftest(rep, cells):
     rep.notes['trace_binding_selftest'] = 'a cell whose resumed offset is changed fails out=in; a cell whose written text is changed fails bytes=Encode(in)'
 
 
+def model_reuse(rep):
+    """FlowReuse.tla: histories of runs of ONE Flow object that ends in a checkpoint"""
+    wd = tlc.workdir('c07r')
+    cfg = tlc.write_cfg(os.path.join(wd, 'fr.cfg'), constants={'MaxLen': 5, 'Accumulates': 'FALSE'}, invariants=['ComputesOnce'], constraints=['Export'])
+    res = tlc.run_tlc('FlowReuse', cfg, workers=1, allow_violation=False)
+    rep.add_tlc(res, 'FlowReuse: every run / delete history of length <= 5 on one Flow object: a run resumes or computes ONCE')
+    cfg = tlc.write_cfg(os.path.join(wd, 'fr0.cfg'), constants={'MaxLen': 4, 'Accumulates': 'TRUE'}, invariants=['ComputesOnce'])
+    if tlc.run_tlc('FlowReuse', cfg).violated != 'ComputesOnce':
+        raise tlc.MachineryError('non-vacuity: FlowReuse with Accumulates=TRUE (the pinned checkpoint keeps the links handed over before a resumed run) must violate ComputesOnce')
+    seen, out = set(), []
+    for c in res.cases:
+        k = canon(c['hist'])
+        if k not in seen and any(h[0] == 'run' for h in c['hist']):
+            seen.add(k)
+            out.append(dict(flow_reuse=True, hist=c['hist'], mult=c['mult']))
+    return out
+
+
+def reuse_case(c):
+    """the history on ONE real Flow object: every run returns the rows of a fresh run, and the upstream step runs mult times"""
+    from dataflows import Flow, checkpoint
+    setup_repo()
+    root = tempfile.mkdtemp(prefix='c07u-', dir=tlc.WORK_ROOT)
+    try:
+        seen = []
+
+        def upstream(row):
+            seen.append(row['a'])
+        rows = [dict(a=i, b='r%d' % i) for i in range(3)]
+        f = Flow([dict(r) for r in rows], upstream, checkpoint('cp', checkpoint_path=root))
+        runs = iter(c['mult'])
+        for n, h in enumerate(c['hist'], start=1):
+            if h[0] == 'del':
+                shutil.rmtree(os.path.join(root, 'cp'))
+                continue
+            want = next(runs)
+            del seen[:]
+            try:
+                with contextlib.redirect_stdout(io.StringIO()), contextlib.redirect_stderr(io.StringIO()):
+                    res = f.results()[0]
+            except Exception as e:
+                return dict(ok=False, why='run %d of the history on one Flow object raised %s: %s' % (n, type(e).__name__, str(getattr(e, 'cause', e))[:120]))
+            if [[dict(r) for r in x] for x in res] != [rows]:
+                return dict(ok=False, why='run %d of the history on one Flow object does not return the rows of a fresh run' % n, got=[[dict(r) for r in x] for x in res])
+            if len(seen) != want * len(rows):
+                return dict(ok=False, why='run %d executed the upstream step %d times per row, the specification says %d' % (n, len(seen) // len(rows), want))
+        return dict(ok=True)
+    finally:
+        shutil.rmtree(root, ignore_errors=True)
+
+
 _DEFAULT_PATH_SCRIPT = r"""
 import sys, os, shutil, json, io, contextlib
 sys.path.insert(0, sys.argv[1])
@@ -588,6 +639,12 @@ def run():
         rep.mark_distinct(it)
         if not out['ok']:
             rep.violation(it, dict(case=it, **{k: v for k, v in out.items() if k != 'ok'}), category='default-checkpoint-path/%s' % out['why'][:40])
+    for c in model_reuse(rep):
+        out = reuse_case(c)
+        rep.count(1, traces=1)
+        rep.mark_distinct(c)
+        if not out['ok']:
+            rep.violation(c, dict(case=c, **{k: v for k, v in out.items() if k != 'ok'}), category='one-flow-object/%s' % out['why'][:40])
     cases = model(rep, t)
     res = pmap(replay_history, cases, chunksize=4)
     errs = harness_errors(res)
@@ -663,7 +720,11 @@ def replay(path):
     setup_repo()
     rec = json.load(open(path))
     c = rec['case']
-    if c.get('default_path'):
+    if c.get('flow_reuse'):
+        out = reuse_case(c)
+        print(out)
+        bad = not out['ok']
+    elif c.get('default_path'):
         out = default_path_case(c)
         print(out)
         bad = not out['ok']
